@@ -404,7 +404,7 @@ func (fe *FuncEnc) run(extra []*Clause) {
 			if len(exits) > 1 {
 				label = fmt.Sprintf("%s@ret%d", en.Label, ei)
 			}
-			fe.addOblig(&Oblig{Kind: "post", Props: en.Props, Label: label, Reach: ex.cond, Formula: f, Src: en.Src, Pos: fr.pos(ex.ret.Pos())}, err)
+			fe.addOblig(&Oblig{Kind: "post", Props: en.Props, Label: label, Reach: ex.cond, Formula: f, Src: en.Src, Pos: fr.pos(ex.ret.Pos()), clause: en.Expr}, err)
 		}
 		if len(exits) == 0 {
 			fe.note("function %s has no return", relName(fn))
